@@ -449,7 +449,11 @@ func evalChain(p ast.Position, scope *stateful.Scope, stck *stack) error {
 			}
 		}
 		if describer.HasProperty(name) {
-			stck.Push(describer.Property(name))
+			v := describer.Property(name)
+			if v == nil {
+				return errorf(p, "property %s of object %T cannot be read, did you mean to call .%s()?", name, l, name)
+			}
+			stck.Push(v)
 		} else {
 			return errorf(p, "object %T has no property %s", l, name)
 		}
@@ -811,7 +815,10 @@ func (r *ReflectionDescriber) HasProperty(name string) bool {
 func (r *ReflectionDescriber) Property(name string) interface{} {
 	// Properties set by property methods cannot be read
 	name = capitalizeFirst(name)
-	property := r.properties[name]
+	property, ok := r.properties[name]
+	if !ok {
+		return nil
+	}
 	return property.Interface()
 }
 
